@@ -362,7 +362,9 @@ def _prefix_sum_1d(a, n, at):
     """fresh ps with ps(0)=0, ps(i+1)=ps(i)+at(i); returns (ps, total)"""
     vc = cur()
     ps = vc.fresh_fn('ps', IntS, RealS)
-    vc.assume(ps(0) == 0, forall_range(0, n, lambda i: ps(i + 1) == ps(i) + at(i), 'i'))
+    f0, f1 = ps(0) == 0, forall_range(0, n, lambda i: ps(i + 1) == ps(i) + at(i), 'i')
+    vc.assume(f0, f1)
+    vc.ghost['ps_axioms'] = (f0, f1)         # the two facts just assumed (for proof scripts that name their hypotheses)
     return ps, ps(n)
 
 
@@ -386,7 +388,7 @@ def sum(a, axis=None, keepdims=False):
     if s.ndim == 1 and (axis in (None, 0, -1)):
         ps, tot = _prefix_sum_1d(s, s.shape[0], lambda i: real(s.at(i)))
         r = SReal(tot)
-        vc.libcall('np.sum', dict(arr=s, res=r, ps=ps))
+        vc.libcall('np.sum', dict(arr=s, res=r, ps=ps, axioms=vc.ghost.get('ps_axioms')))
         return r
     if s.ndim == 2 and axis in (0, -2):
         ps = vc.fresh_fn('ps', IntS, IntS, RealS)
@@ -398,9 +400,10 @@ def sum(a, axis=None, keepdims=False):
     if s.ndim == 2 and axis in (1, -1):
         ps = vc.fresh_fn('ps', IntS, IntS, RealS)
         n, m = s.shape
-        vc.assume(forall_range(0, n, lambda i: z3.And(ps(i, 0) == 0, forall_range(0, m, lambda j: ps(i, j + 1) == ps(i, j) + real(s.at(i, j)), 'j')), 'i'))
+        ax = forall_range(0, n, lambda i: z3.And(ps(i, 0) == 0, forall_range(0, m, lambda j: ps(i, j + 1) == ps(i, j) + real(s.at(i, j)), 'j')), 'i')
+        vc.assume(ax)
         out = SArr(Cell(lambda i: ps(i, m), (n,), 'real'))
-        vc.libcall('np.sum', dict(arr=s, res=out, ps=ps, axis=1))
+        vc.libcall('np.sum', dict(arr=s, res=out, ps=ps, axis=1, axioms=(ax,)))
         return out
     raise OutOfSubset('np.sum rank %d axis %r' % (s.ndim, axis))
 
